@@ -195,6 +195,26 @@ fixed("C14", "C14:invalid-other-exception", "6d4819a",
       [{"kind": "invalid", "args": [], "kwargs": {"fg": [31]}},
        {"kind": "lenient", "args": [], "kwargs": {"fg": 31.0}, "meaning": {"fg": "red"}}])
 
+fixed("C13", "C13:run-attribute-assignable", "e1378d4",
+      "a run's memoised terminal string (Chunk.color_str, a cached_property) accepted assignment: every value sharing "
+      "the run changed its display in place",
+      [{"spec": [["ab", {"fg": 31, "bold": True}]], "edit": "run_color_str"}])
+
+fixed("C15", "C15:encode", "72f70f7",
+      "f.encode(...) raised ValueError: the delegation wrapped the bytes result in fmtstr()",
+      [{"spec": [["ab", RED]], "method": "encode", "args": [], "kwargs": {}},
+       {"spec": [["aß", RED], ["b", BLUE]], "method": "encode", "args": ["ascii", "replace"], "kwargs": {}}])
+fixed("C15", "C15:splitlines-other-line-boundaries", "e3cbf85",
+      "splitlines only split at \\n: \\r\\n, \\r, \\x0b, \\x0c, \\x1c-\\x1e, \\x85, \\u2028, \\u2029 gave other pieces than str.splitlines",
+      [{"spec": [["a\r\nb", RED], ["c\rd", BLUE]], "method": "splitlines", "args": [], "kwargs": {}},
+       {"spec": [["a\x0cb\u2028", RED]], "method": "splitlines", "args": [True], "kwargs": {}}])
+
+fixed("C14", "C14:copy_with_new_str-takes-formatting-of-empty-run", "6f5e65e",
+      "copy_with_new_str gave the new text the attributes of a zero-length run that no character had",
+      [{"kind": "newstr", "fmt": [["abc", {}]], "new": "hello", "onto_empty": False, "stray_empty_run": [0, {"fg": 31}]},
+       {"kind": "newstr", "fmt": [["ab", {"bold": True}], ["c", {"bold": True}]], "new": "x", "onto_empty": False,
+        "stray_empty_run": [1, {"bg": 44}]}])
+
 known("C03", "C03:prefix-then-undecodable-byte",
       "get_key raises UnicodeDecodeError for a table-sequence prefix (e.g. ESC) followed by a byte >= 0x80 "
       "that does not decode: ESC + any 8-bit byte under ascii, ESC + a UTF-8 lead/continuation byte under utf-8",
